@@ -2256,7 +2256,7 @@ class Interp:
         # anything else outside the package: opaque, pure, deterministic in its arguments.  A call that was handed a
         # mutable container may in fact change it (heapq, bisect.insort, random.shuffle …): remembered, so that a loop
         # which then does not stop is reported as a modelling gap, not as the program's behaviour
-        if any(isinstance(a, (list, dict, set)) for a in list(args) + list(kwargs.values())):
+        if any(isinstance(a, (list, dict, set)) for a in list(args) + list(kwargs.values())) and name.split(".")[0] not in _PURE_MODULES and "." in name:
             self.opaque_mutators.append(name)
         self.event("extcall", name, tuple(a for a in args if not isinstance(a, (list, dict))))
         parts = [_sym(a) for a in args] + [f"{k}={_sym(v)}" for k, v in kwargs.items()]
@@ -2684,6 +2684,9 @@ class _DictView:
 
 
 _MISSING = object()
+# standard-library modules none of whose functions change a container they are given
+_PURE_MODULES = {"json", "math", "cmath", "operator", "itertools", "functools", "statistics", "re", "copy", "hashlib", "hmac", "time", "datetime", "logging", "typing",
+                 "dataclasses", "textwrap", "string", "decimal", "fractions", "uuid", "os", "pprint", "warnings", "base64", "binascii", "enum", "abc", "inspect", "sys", "ast", "collections"}
 _NEVER_NONE = ("tuple(", "list(", "set(", "frozenset(", "sorted(", "dict(", "str(", "repr(", "len(", "int(", "float(", "abs(", "hash(", "f⟨", "type(", "bool(")
 _LAZY_AWARE = {"next", "iter", "any", "all"}
 
